@@ -13,7 +13,7 @@
 From Coq Require Import NArith ZArith List Bool.
 From ST Require Import Base.Outcome Base.Units Utf.Spec Utf.Tokens Utf.Model Utf.ProofsGeneric Utf.ProofsC01 Utf.ProofsC02 Utf.ApiCoverage.
 From ST Require Utf.LeafBridge Gen.Leaf.
-From ST Require Utf.LoopBridge Utf.LoopBridgeValidate Utf.LoopBridgeExtract Utf.LoopBridgeWrite Utf.LoopBridgeConvert32 Utf.LoopBridgeConvertTo32 Utf.LoopBridgeConvert8To16 Utf.LoopBridgeLatin1.
+From ST Require Utf.LoopBridge Utf.LoopBridgeValidate Utf.LoopBridgeExtract Utf.LoopBridgeWrite Utf.LoopBridgeConvert32 Utf.LoopBridgeConvertTo32 Utf.LoopBridgeConvert8To16 Utf.LoopBridgeLatin1 Utf.LoopBridgeCleanup.
 Import ListNotations.
 Local Open Scope N_scope.
 
@@ -273,3 +273,17 @@ Proof.
           (fun A => ST.Utf.LoopBridgeLatin1.latin_1_convert_from_utf32_matches_source l m sub fuel A Hf))).
 Qed.
 Print Assumptions latin_1_passes_match_source.
+
+(* ---- tie by translation, the repair: cleanup_utf8(output, buffer, size) with its helper append_chars — what
+   substitute_invalid does to ill-formed UTF-8 — is translated from the CURRENT headers (for a non-null output; the null
+   case, used to measure, only skips the stores).  For byte strings of any length and enough fuel it returns the size and
+   stores exactly the bytes that the model repair of every theorem above returns and pushes, in both of the model's
+   modes: with an output (given room) and without ---- *)
+Theorem repair_loop_matches_source : forall l fuel, all_lt 256 l = true ->
+  (3 * Z.of_nat (length l) < 18446744073709551616)%Z -> (length l < fuel)%nat ->
+  exists ws, ST.Gen.Leaf.src_cleanup_utf8 fuel (ST.Utf.LoopBridge.arr8s l) (Z.of_nat (length l)) = Some (Z.of_nat (length ws), ws) /\
+    (forall d : dst, (length ws <= fst d)%nat ->
+       cleanup_utf8 (Some d) l = Ok (length ws, Some ((fst d - length ws)%nat, rev (map ST.Utf.LoopBridgeWrite.byte_of ws) ++ snd d))) /\
+    cleanup_utf8 None l = Ok (length ws, None).
+Proof. exact ST.Utf.LoopBridgeCleanup.cleanup_utf8_matches_source. Qed.
+Print Assumptions repair_loop_matches_source.
